@@ -165,16 +165,16 @@ class SingleStoreParser(MySQLParser):
         TokenType.COLON_GT: lambda self, this, to: self.expression(exp.Cast(this=this, to=to)),
         TokenType.NCOLON_GT: lambda self, this, to: self.expression(exp.TryCast(this=this, to=to)),
         TokenType.DCOLON: lambda self, this, path: build_json_extract_path(exp.JSONExtract)(
-            [this, exp.Literal.string(path.name)]
+            [this, exp.Literal.string(path.name if path else "")]
         ),
         TokenType.DCOLONDOLLAR: lambda self, this, path: build_json_extract_path(
             exp.JSONExtractScalar, json_type="STRING"
-        )([this, exp.Literal.string(path.name)]),
+        )([this, exp.Literal.string(path.name if path else "")]),
         TokenType.DCOLONPERCENT: lambda self, this, path: build_json_extract_path(
             exp.JSONExtractScalar, json_type="DOUBLE"
-        )([this, exp.Literal.string(path.name)]),
+        )([this, exp.Literal.string(path.name if path else "")]),
         TokenType.DCOLONQMARK: lambda self, this, path: self.expression(
-            exp.JSONExists(this=this, path=path.name, from_dcolonqmark=True)
+            exp.JSONExists(this=this, path=path.name if path else "", from_dcolonqmark=True)
         ),
     }
     COLUMN_OPERATORS = {
